@@ -628,8 +628,25 @@ def is_pos(p, strict=True):
     return some_strict or not strict
 
 
+CERTIFIED_NONNEG = {}     # key -> certificate description (sum of squares, checked by multiplication)
+
+
+def certify_sos(parts, what=""):
+    """Register p = sum_i parts_i^2 (real parts_i) as non-negative; the identity is computed here, not assumed."""
+    p = ZERO
+    for q in parts:
+        q = to_P(q)
+        if not is_real(q):
+            raise Unmodelled("sum-of-squares certificate with a non-real part")
+        p = p + q * q
+    CERTIFIED_NONNEG[p.key()] = "sum of %d squares %s" % (len(parts), what)
+    return p
+
+
 def is_nonneg(p):
     if is_pos(p, strict=False):
+        return True
+    if CERTIFIED_NONNEG and len(p.t) > 1 and p.key() in CERTIFIED_NONNEG:
         return True
     if _is_modsq(p):
         return True
@@ -1185,10 +1202,15 @@ def _zero_indep(p, depth=0):
     return True
 
 
-def is_zero(p, limit=30000):
+import os as _os
+_CLEAR_LIMIT = int(_os.environ.get("VF_CLEAR_LIMIT", "30000"))
+
+
+def is_zero(p, limit=None):
     """True if p is identically zero modulo the atom relations; False if its
     cleared normal form is a non-zero polynomial (caller should confirm
     numerically before reporting anything)."""
+    limit = limit or int(_os.environ.get("VF_CLEAR_LIMIT", "60000"))
     if not p.t:
         return True
     if not _inv_atoms_in(p):
